@@ -203,7 +203,7 @@ def step (c : Ctx) (line : String) : Ctx × Array String :=
     let cap := (rest.filterMap fun t => if t.startsWith "cap=" then some (toN (t.drop 4).toString) else none).head?.getD 1
     ({ b := { cap := cap }, run := none }, #[s!"scn {id}"])
   | ["buf", sz, uns] => ({ c with b := { c.b with bufSize := toN sz, uns := toI uns } }, #[])
-  | ["mutex", m] => ({ c with b := { c.b with mutex := m == "1" } }, #[])
+  | ["mutex", m] => ({ c with b := { c.b with mutex := m == "1" || m == "2" } }, #[])    -- 2: interface completed right after cat_init
   | ["slot", len, ini] =>
     let n := toN len
     let d := (unhexOpt ini).getD []
